@@ -71,6 +71,21 @@ def cross_version_cases(seed, n):
         for j in range(3):
             o = dict(rename_locals=True, rename_globals=r.random() < 0.7, hoist_literals=True)
             out.append({'op': 'frozen', 'shape': 'py2-taint', 'src': s, 'opts': o})
+    # positions that exist only on newer interpreters (uncompilable elsewhere: skipped there)
+    newer = ["def taint_generic[T: {T}](argument_value: T):\n    local_value = argument_value\n    return local_value",
+             "def taint_generic_default[T = {T}](argument_value: T):\n    local_value = argument_value\n    return local_value",
+             "class TaintGeneric[*Ts = *{T}]:\n    def method(self, argument_value):\n        local_value = argument_value\n        return local_value",
+             "type TaintAlias[T = {T}] = list[T]\ndef after_alias(argument_value):\n    local_value = argument_value\n    return local_value",
+             "def taint_match(argument_value):\n    local_value = argument_value\n    match argument_value:\n        case int() if {T}:\n            return local_value",
+             "def taint_except_star(argument_value):\n    local_value = argument_value\n    try:\n        pass\n    except* ValueError:\n        return {T}\n    return local_value",
+             "def taint_walrus(argument_value):\n    return [(local_value := argument_value), {T}]",
+             "def taint_posonly(argument_value, /, other_value={T}):\n    local_value = argument_value\n    return local_value, other_value",
+             "taint_text = f'{{T}!r}'\ndef after_fstring(argument_value):\n    local_value = argument_value\n    return local_value"]
+    for tmpl in newer:
+        for trig in taintgen.TRIGGER_EXPRS:
+            base = taintgen.BASE_PROGRAMS[0]
+            out.append({'op': 'frozen', 'shape': 'taint.newer', 'src': base + tmpl.replace('{T}', trig) + '\n',
+                        'opts': dict(rename_locals=True, rename_globals=True, hoist_literals=True, remove_argument_annotations=False)})
     for i in range(n):
         base = r.choice(taintgen.BASE_PROGRAMS)
         trig = r.choice(taintgen.TRIGGER_EXPRS)
